@@ -1,4 +1,5 @@
 import TongoProofs.Lemmas.AddrRoundtrip
+import TongoProofs.Lemmas.Base64Bits
 /-! The root-package parser `tongo.ParseAddress` (model `Address.parseAddress`): the id AND the bounce flag survive
 print → parse. Core Lean only. -/
 namespace Tongo.Address
